@@ -28,7 +28,7 @@ KIND_OF_VAR = {'angular position': 'AngularPosition', 'angular speed': 'AngularS
                'load torque': 'Torque', 'tangential force': 'Force', 'bending stress': 'Stress',
                'contact stress': 'Stress', 'electric current': 'Current', 'pwm': None}
 ATTR_OF_VAR = {v: v.replace(' ', '_') for v in KIND_OF_VAR}
-EVENTS = ['R3', 'RS', 'R2', 'X', 'RM']
+EVENTS = ['R3', 'RS', 'R2', 'X', 'RM', 'NP']
 
 
 def bounds(tier):
@@ -146,11 +146,11 @@ def valid_histories(depth):
             for e in h:
                 if e == 'RM':
                     continue
-                if e == 'X':
+                if e in ('X', 'NP'):
                     if not ran:
                         ok = False
                         break
-                    ran = False
+                    ran = e == 'NP'
                 else:
                     ran = True
             if ok and h[0] != 'RM' and not any(a == 'RM' and b == 'RM' for a, b in zip(h, h[1:])):
@@ -177,6 +177,16 @@ def do_event(m, e, controlled=False):
         for i, link in enumerate(m.spec['links']):
             if link['t'] != 'J':
                 sim.declare(m.elements[i], m.elements[i + 1], link)
+    elif e == 'NP':
+        # the user builds a SECOND Powertrain (and Solver) over the same, already simulated elements, resets it and
+        # re-applies the initial conditions: the elements go back to an empty history whichever Powertrain object asks
+        from gearpy.powertrain import Powertrain
+        from gearpy.solver import Solver
+        m.pt = Powertrain(motor=m.elements[0])
+        m.pt.reset()
+        m.apply_init()
+        m.solver = Solver(powertrain=m.pt)
+        m.run(DT, [DT[0] * 2, 'sec'], duty=duty)           # ... and simulates it
     else:
         m.pt.reset()
         m.apply_init()
